@@ -4,7 +4,7 @@ import ast
 from ..core import sym
 from ..core.expand import u, call_name, get_arg, bind_args, Expander, is_marker, phi_alternatives
 from ..core.loader import Inconclusive, const_value, parents
-from .common import (alternatives, guard_dnf, literal_dnf, guarded_values, explicit_guards_of, returns, all_nodes, callee, strip_shape, calls_in, guards_of, stmt_of, kw, find_assignments, in_loop,
+from .common import (alternatives, substitute, guard_dnf, literal_dnf, guarded_values, explicit_guards_of, returns, all_nodes, callee, strip_shape, calls_in, guards_of, stmt_of, kw, find_assignments, in_loop,
                      result_fields, compare_nf, loops_around)
 
 EXPLANATION = (
@@ -93,25 +93,46 @@ def rule_status(ck):
         if len(gq) != 1:
             o.fail('%s does not compute its quantile once' % name)
             continue
-        g = guards_of(gq[0], f.node)
+        # the result's status / quantile variables, read from the constructor call
+        flds = [fl for fl in result_fields(P, f) if fl.get('status') is not None and '__none__' not in fl]
+        st_names = {fl['status'][1].id for fl in flds if isinstance(fl['status'][1], ast.Name)}
+        q_exprs = [fl['quantile'][1] for fl in flds if fl.get('quantile') is not None]
         ok = False
-        for t, pol in g:
-            txt = u(t)
-            if not pol and 'n_obs == 0' in txt and 'numpy.isnan(' in txt and isinstance(t, ast.BoolOp) and isinstance(t.op, ast.Or):
-                ok = True
-                # the true branch sets not-valid and the sentinel
-                node = [n for n in all_nodes(f) if isinstance(n, ast.If) and n.test is t][0]
-                body = ' '.join(u(s) for s in node.body)
-                if "message = 'not-valid'" not in body or 'delta_1, delta_2 = (-1, -1)' not in body:
-                    ok = False
+        ctrl = None
+        child = gq[0]
+        for p_ in parents(gq[0]):
+            if isinstance(p_, ast.If):
+                d = literal_dnf(p_.test, True)
+                atoms = [(u(a_), pl_) for conj in d for a_, pl_ in conj]
+                if len(d) == 2 and all(len(c_) == 1 and c_[0][1] for c_ in d) and any(N.nf(c_[0][0]) == N.nf('n_obs == 0') for c_ in d) \
+                        and any(isinstance(c_[0][0], ast.Call) and (callee(P, f, c_[0][0]) or '') in ('numpy.isnan', 'math.isnan') for c_ in d):
+                    if any(child is s_ for s_ in p_.orelse):
+                        ctrl = (p_, p_.body)
+            if p_ is f.node:
+                break
+            child = p_
+        if ctrl is not None:
+            env = {}
+            for s_ in ctrl[1]:
+                if isinstance(s_, ast.Assign) and len(s_.targets) == 1:
+                    t_ = s_.targets[0]
+                    if isinstance(t_, ast.Name):
+                        env[t_.id] = s_.value
+                    elif isinstance(t_, ast.Tuple) and isinstance(s_.value, ast.Tuple) and len(t_.elts) == len(s_.value.elts):
+                        for a_, b_ in zip(t_.elts, s_.value.elts):
+                            if isinstance(a_, ast.Name):
+                                env[a_.id] = b_
+            sts = [const_value(env[n_]) for n_ in st_names if n_ in env]
+            qs = [u(substitute(q_, env)) for q_ in q_exprs]
+            ok = bool(st_names) and sts == ['not-valid'] * len(st_names) and bool(qs) and all(q_ == '(-1, -1)' for q_ in qs)
         (o.ok("quantile only when n_obs > 0 and the statistic is a number; otherwise 'not-valid' with (-1, -1)") if ok else
          o.fail("the quantile of %s is not control-dependent on `n_obs == 0 or isnan(statistic)` with a 'not-valid' / (-1, -1) alternative" % name))
-        for fl in result_fields(P, f):
+        for fl in flds:
             st = fl.get('status')
-            if st is None or '__none__' in fl:
-                continue
             oo = ck.ob('C10-D1.statusvar', f, st[1], st[1])
-            (oo.ok() if isinstance(st[1], ast.Name) and st[1].id == 'message' else oo.fail('the result status is `%s`, not the computed message' % u(st[1])))
+            (oo.ok() if isinstance(st[1], ast.Name) and ctrl is not None and any(
+                isinstance(t_, ast.Name) and t_.id == st[1].id for s_ in ctrl[1] if isinstance(s_, ast.Assign) for t_ in s_.targets)
+             else oo.fail('the result status is `%s`, not the computed message' % u(st[1])))
 
 
 def rule_undersampling(ck):
@@ -126,22 +147,47 @@ def rule_undersampling(ck):
             o.fail('%s has no branch for an observed statistic of -inf (events in never-sampled cells)' % name)
             continue
         body = ifs[0].body
-        txt = ' '.join(u(s) for s in body)
         probs = []
-        if 'idx_good_sim = forecast_mean_spatial_rates != 0' not in txt:
-            probs.append('the sampled cells are not selected by mean rate != 0')
-        if 'new_gridded_obs = gridded_obs[idx_good_sim]' not in txt or 'new_ard = forecast_mean_spatial_rates[idx_good_sim]' not in txt:
-            probs.append('observations / rates are not restricted to the sampled cells')
-        rec = [s for s in body if isinstance(s, ast.Assign) and isinstance(s.value, ast.Call) and callee(P, f, s.value) == CL]
-        if len(rec) != 1 or [u(a) for a in rec[0].value.args[:2]] != ['new_gridded_obs', 'new_ard'] or var not in u(rec[0].targets[0]):
+        ex = Expander(P, f)
+        inside = {id(x) for s_ in body for x in ast.walk(s_)}
+
+        def stat_calls(where):
+            """[(call of _compute_likelihood, component of its result bound to the statistic)]"""
+            out = []
+            for a in find_assignments(f, var):
+                if not isinstance(a, ast.Assign) or (id(a) in inside) != where:
+                    continue
+                v, comp = a.value, None
+                t = a.targets[0]
+                if isinstance(v, ast.Subscript) and isinstance(const_value(v.slice), int):
+                    v, comp = v.value, const_value(v.slice)
+                if isinstance(t, ast.Tuple):
+                    comp = next((k for k, e in enumerate(t.elts) if isinstance(e, ast.Name) and e.id == var), None)
+                if isinstance(v, ast.Call) and callee(P, f, v) == CL:
+                    out.append((v, comp))
+            return out
+        before, rec = stat_calls(False), stat_calls(True)
+        if len(before) != 1 or len(rec) != 1 or before[0][1] != rec[0][1] or len(rec[0][0].args) < 2 or len(before[0][0].args) < 2:
             probs.append('the statistic is not recomputed from the restricted arrays')
-        msg = [s for s in body if isinstance(s, ast.Assign) and u(s.targets[0]) == 'message']
+        else:
+            o0, r0 = [ex.expand(a) for a in before[0][0].args[:2]]
+            o1, r1 = [ex.expand(a) for a in rec[0][0].args[:2]]
+            if not (isinstance(o1, ast.Subscript) and isinstance(r1, ast.Subscript) and u(o1.value) == u(o0) and u(r1.value) == u(r0)):
+                probs.append('observations / rates are not restricted to the sampled cells')
+            else:
+                if u(o1.slice) != u(r1.slice):
+                    probs.append('observations and rates are restricted by different masks')
+                if N.nf(o1.slice) not in (N.nf('%s != 0' % u(r0)), N.nf('%s > 0' % u(r0))) and u(o1.slice) not in ('%s != 0' % u(r0), '%s > 0' % u(r0)):
+                    probs.append('the sampled cells are not selected by mean rate != 0')
+        stn = {fl['status'][1].id for fl in result_fields(P, f) if fl.get('status') is not None and isinstance(fl['status'][1], ast.Name)}
+        stname = sorted(stn)[0] if len(stn) == 1 else 'message'
+        msg = [s_ for s_ in body if isinstance(s_, ast.Assign) and u(s_.targets[0]) == stname]
         if not msg or const_value(msg[-1].value) != 'undersampled':
             probs.append("the status is not set to 'undersampled': a recomputed statistic would be reported as 'normal'")
         (o.fail('; '.join(probs)) if probs else o.ok("recomputed on sampled cells, status 'undersampled'"))
         # default message is 'normal' set before the branch
-        m0 = [a for a in find_assignments(f, 'message') if not explicit_guards_of(a, f.node)]
-        oo = ck.ob('C10-D2.default', f, m0[0] if m0 else 'message', m0[0] if m0 else f.node)
+        m0 = [a for a in find_assignments(f, stname) if not explicit_guards_of(a, f.node)]
+        oo = ck.ob('C10-D2.default', f, m0[0] if m0 else stname, m0[0] if m0 else f.node)
         (oo.ok() if len(m0) == 1 and const_value(m0[0].value) == 'normal' and m0[0].lineno < ifs[0].lineno else oo.fail("the default status 'normal' is not set before the undersampling branch"))
     # the logs in _compute_likelihood are plain numpy.log
     f = P.func(CL)
@@ -198,8 +244,26 @@ def rule_guards(ck):
         f = P.func(CE + name)
         gq = calls_in(P, f, GQ)
         o = ck.ob('C10-D3.nan', f, 'NaN entries removed before the quantile', gq[0] if gq else f.node)
-        txt = ' '.join(u(s) for s in f.node.body)
-        ok = ('%s = %s[~numpy.isnan(%s)]' % (var, var, var)) in txt and gq and u(gq[0].args[0]) == var
+        ok = False
+        if len(gq) == 1 and gq[0].args:
+            ex = Expander(P, f)
+            e = ex.expand(gq[0].args[0])
+            alts = phi_alternatives(e)
+
+            def filtered(a):
+                return isinstance(a, ast.Subscript) and isinstance(a.slice, ast.UnaryOp) and isinstance(a.slice.op, ast.Invert) \
+                    and isinstance(a.slice.operand, ast.Call) and u(a.slice.operand.func) == 'numpy.isnan' \
+                    and a.slice.operand.args and u(a.slice.operand.args[0]) == u(a.value)
+            fl = [a for a in alts if filtered(a)]
+            rest = [a for a in alts if not filtered(a)]
+            if fl and all(u(a) == u(fl[0].value) for a in rest):
+                ok = True
+                if rest:
+                    # the unfiltered alternative is only taken when the distribution holds no NaN
+                    base = u(fl[0].value)
+                    tests = [n.test for n in all_nodes(f) if isinstance(n, ast.If)]
+                    ok = any(u(ex.expand(t)) in ('numpy.isnan(numpy.sum(%s))' % base, 'numpy.any(numpy.isnan(%s))' % base,
+                                                   'numpy.isnan(%s).any()' % base, 'numpy.isnan(%s.sum())' % base) for t in tests)
         (o.ok() if ok else o.fail('NaN statistics of empty synthetic catalogs are not removed from the distribution handed to get_quantiles'))
 
 
@@ -297,7 +361,9 @@ def rule_formulas(ck):
         for fl in result_fields(P, f, exk):
             # temporaries between the statistic and the result object are looked through; the named values stay symbolic
             q = fl.get('quantile')
-            if q is not None and '__none__' not in fl and not all(u(a_) in ('(delta_1, delta_2)', '(None, None)') for a_ in alternatives(q[0])):
+            if q is not None and '__none__' not in fl and not all(
+                    u(a_) in ('(delta_1, delta_2)', '(None, None)') + (('(-1, -1)',) if name in ('spatial_test', 'pseudolikelihood_test') else ())
+                    for a_ in alternatives(q[0])):
                 probs.append('result quantile is %s' % u(q[0])[:60])
             osv = fl.get('observed_statistic')
             if osv is not None and not all(u(a_) in (obs, 'None') or u(a_).startswith('numpy.nan') for a_ in alternatives(osv[0])):
@@ -396,9 +462,15 @@ def rule_formulas(ck):
             if args[3] != want_n:
                 probs.append('n_obs is `%s`' % args[3][:50])
             st = stmt_of(c)
-            tg = [u(x) for x in st.targets[0].elts] if isinstance(st, ast.Assign) and isinstance(st.targets[0], ast.Tuple) else []
-            if len(tg) != 2 or tg[1 - pick] != '_':
-                probs.append('unpacked as %s; %s uses component %d' % (tg, name, pick))
+            par = getattr(c, '_parent', None)
+            used = None
+            if isinstance(par, ast.Subscript) and par.value is c and isinstance(const_value(par.slice), int):
+                used = {const_value(par.slice)}
+            elif isinstance(st, ast.Assign) and st.value is c and isinstance(st.targets[0], ast.Tuple) and len(st.targets[0].elts) == 2:
+                loads = {n_.id for n_ in all_nodes(f) if isinstance(n_, ast.Name) and isinstance(n_.ctx, ast.Load)}
+                used = {k for k, x in enumerate(st.targets[0].elts) if isinstance(x, ast.Name) and x.id != '_' and x.id in loads}
+            if used != {pick}:
+                probs.append('components %s of the result are used; %s uses component %d' % (sorted(used) if used is not None else 'unknown', name, pick))
             (oo.fail('; '.join(probs)) if probs else oo.ok())
     # MLL score
     m = P.func('csep.utils.stats.MLL_score')
